@@ -33,7 +33,8 @@ ELEMENTS = ["a.cfg", "b c.cfg", "ü-é.cfg", ".hidden", "sub/x.cfg", "sub/deep/y
 CONTENT = {
     "a.cfg": "hostname a\r\ninterface e1\r\n ip address 10.1.2.3 255.255.255.0\r\npassword s3cretA\r\n",
     "b c.cfg": "ip route 10.1.2.3 255.255.255.255 138.7.6.5\npassword s3cretB\nkey 7 082959401D1C1745",
-    "ü-é.cfg": "neighbor 2001:db8::1 peer 10.1.2.3\npassword s3cretA\n\n",
+    # starts with a byte order mark, as exported by some Windows tools
+    "ü-é.cfg": "\ufeffneighbor 2001:db8::1 peer 10.1.2.3\npassword s3cretA\n\n",
     ".hidden": "password hiddenSecret 10.1.2.3\n",
     "sub/x.cfg": " peer 138.7.6.5\n password s3cretX\n",
     "sub/deep/y.cfg": "peer 10.1.2.3 2001:db8::1\nenable secret 5 $1$abcd$29GNUbipw18FMTahov07EL\n",
